@@ -98,6 +98,7 @@ def finishClose (cfg : Cfg) : Nat → Ctl → List Char → List Ctl
         let o := outs.headD '+'
         finishClose cfg fuel { c with s := step cfg c.s (.wstep 0 (o == '+')), outcomes := c.outcomes ++ [o] } outs.tail
     | .drain _ => finishClose cfg fuel { c with s := step cfg c.s (.wstep 0 true) } outs
+    | .barrier => finishClose cfg fuel { c with s := step cfg c.s (.wstep 0 true) } outs
     | .select =>
       if c.s.chan.isEmpty then finishClose cfg fuel { c with s := step cfg c.s (.wstep 0 true) } outs
       else
@@ -175,6 +176,11 @@ def modelGC (n : Nat) : String :=
 
 def model (line : String) : String :=
   match words line with
+  | ["race", ms, g] =>
+    -- uncontrolled real schedules; whatever they are, `C27_close_complete` says nothing stays behind
+    match ms.toNat?, g.toNat? with
+    | some ms, some g => if ms < 1 || ms > 60000 || g < 1 || g > 256 then "bad-case" else "lost=0"
+    | _, _ => "bad-case"
   | ["gc", n, mb] =>
     match n.toNat?, mb.toNat? with
     | some n, some mb => if n < 1 || n > 8 || mb < 1 || 4 * mb < 2 * n then "bad-case" else modelGC n
@@ -254,6 +260,10 @@ def judge (line : String) : String :=
   -- without a configured error handler there is nobody to report a failed batch to
   let hdl := (words c).getD 2 "1" == "1"
   if o == "STALL" || o == "bad-case" then "ok" else
+  if (words c).head? == some "race" then
+    if o == "lost=0" then "ok"
+    else "bad silently-dropped: " ++ o ++ " accepted message(s) stayed in the channel after close (submit racing close)"
+  else
   if (words c).head? == some "gc" then
     -- order oracle per sender over the batches in the order the remote node completed them
     match o.splitOn " | B " with
